@@ -66,7 +66,7 @@ var domain = [...][]string{
 	kDbl:    {"-1.5", "-0.25", "0", "0.25", "1", "1.5", "2", "10", "1e10"},
 	kStrBin: {"", "a", "A", "á", "ab", "aB", "Ab", "b", "B", "a ", "10", "9", "z"},
 	kStrAI:  {"", "a", "A", "á", "ab", "aB", "Ab", "b", "B", "a ", "10", "9", "z"},
-	kStrGen: {"", "a", "A", "á", "ab", "aB", "Ab", "b", "B", "a ", "10", "9", "z"},
+	kStrGen: {"", "a", "A", "á", "ab", "aB", "Ab", "b", "B", "10", "9", "z"}, // no trailing space: see cmpStr
 	kDate:   {"1000-01-01", "2019-12-31", "2020-01-01", "2020-01-02", "2020-02-29", "9999-12-31"},
 }
 
